@@ -38,7 +38,7 @@ MIN_NONTRIVIAL = {'quick': 12000, 'thorough': 200000}
 REQUIRED_MONITORS = ['boundary:PLSSDesc', 'boundary:find_twprge',
                      'contract:unpack_twprge', 'default-filled',
                      'hostile-neighbour', 'ocr', 'pair',
-                     'channel:config-object-vs-later-master']
+                     'channel:config-object-vs-later-master', 'segment-mode']
 EXHAUSTIVE_SUBSPACES = {
     'thorough': ["compact spelling, t 1..199 x r 1..130, directions rotating"],
 }
@@ -104,16 +104,23 @@ def check(case, ctx, rep, pytrs):
                      'expect': want})
     MC = pytrs.MasterConfig
     saved = (MC.default_ns, MC.default_ew)
+    # (every fourth case is parsed in `segment` mode: same reading)
+    seg = bool(case.get('segment'))
+    if seg:
+        ctx.hit('segment-mode')
+
+    def cfg(x):
+        return ','.join(filter(None, [x, 'segment' if seg else '']))
     with ctx.guard(case):
         try:
             if channel == 'config':
-                d = pytrs.PLSSDesc(txt, config=f"{dns},{dew}")
+                d = pytrs.PLSSDesc(txt, config=cfg(f"{dns},{dew}"))
             elif channel == 'keyword':
                 d = pytrs.PLSSDesc(txt, wait_to_parse=True)
-                d.parse(default_ns=dns, default_ew=dew)
+                d.parse(default_ns=dns, default_ew=dew, segment=seg)
             elif channel == 'master':
                 MC.default_ns, MC.default_ew = dns, dew
-                d = pytrs.PLSSDesc(txt)
+                d = pytrs.PLSSDesc(txt, config=cfg('') or None)
             elif channel == 'config-object-vs-later-master':
                 # The defaults are written into a Config object while
                 # MasterConfig happens to say the same; the object is then
@@ -129,16 +136,16 @@ def check(case, ctx, rep, pytrs):
                 ctx.hit('channel:config-object-vs-later-master')
             elif channel == 'mixed':
                 # one axis from the config string, the other as keyword
-                d = pytrs.PLSSDesc(txt, config=dns, wait_to_parse=True)
+                d = pytrs.PLSSDesc(txt, config=cfg(dns), wait_to_parse=True)
                 d.parse(default_ew=dew)
             elif channel == 'mixed2':
-                d = pytrs.PLSSDesc(txt, config=dew, wait_to_parse=True)
+                d = pytrs.PLSSDesc(txt, config=cfg(dew), wait_to_parse=True)
                 d.parse(default_ns=dns)
             else:
                 # config says the opposite; keyword must win
                 odn = 's' if dns == 'n' else 'n'
                 ode = 'e' if dew == 'w' else 'w'
-                d = pytrs.PLSSDesc(txt, config=f"{odn},{ode}",
+                d = pytrs.PLSSDesc(txt, config=cfg(f"{odn},{ode}"),
                                    wait_to_parse=True)
                 d.parse(default_ns=dns, default_ew=dew)
             ctx.hit('boundary:PLSSDesc')
@@ -203,8 +210,10 @@ OCR_MAP = {'1': ['I', 'l'], '0': ['O'], '5': ['S']}
 
 
 def check_ocr(rng, ctx, rep, pytrs):
-    t = rng.choice([rng.randint(10, 99), rng.randint(100, 199)])
-    r = rng.choice([rng.randint(10, 99), rng.randint(100, 130)])
+    t = rng.choice([rng.randint(1, 9), rng.randint(10, 99),
+                    rng.randint(100, 199)])
+    r = rng.choice([rng.randint(1, 9), 2, rng.randint(10, 99),
+                    rng.randint(100, 130)])
     ns, ew = rng.choice('ns'), rng.choice('ew')
 
     def corrupt(num):
@@ -218,7 +227,11 @@ def check_ocr(rng, ctx, rep, pytrs):
     rs, c2 = corrupt(r)
     if not (c1 or c2):
         return
-    txt = f"T{ts}{ns.upper()}-R{rs}{ew.upper()} Sec 14: NE/4"
+    if rng.random() < 0.7:
+        txt = f"T{ts}{ns.upper()}-R{rs}{ew.upper()} Sec 14: NE/4"
+    else:
+        txt = (f"Township {ts} {'North' if ns == 'n' else 'South'}, Range {rs} "
+               f"{'East' if ew == 'e' else 'West'}, Sec 14: NE/4")
     case = {'ocr': True, 'text': txt, 't': t, 'r': r, 'ns': ns, 'ew': ew}
     rep.set_case(case)
     ctx.case(txt, True, shape='ocr', sample={'text': txt})
@@ -361,7 +374,8 @@ def gen_case(rng):
                                                  'keyword-over-config',
                                                  'mixed', 'mixed2',
                                                  'config-object-vs-later-master']),
-            'text': txt, 'hostile': hostile}
+            'text': txt, 'hostile': hostile,
+            'segment': rng.random() < 0.25 and not hostile}
 
 
 def run_shard(shard, ctx):
